@@ -57,6 +57,35 @@ func Mutations1(base []byte, vals []byte, fn func(m []byte)) {
 	}
 }
 
+// Lookalikes are multi-byte runes that case folding, Unicode digit / letter classes or "visually the same" normalisation
+// map onto the ASCII characters the grammars of this library are made of (long s, Kelvin sign, dotless and dotted i,
+// full-width digits, letters and punctuation, Arabic-Indic and mathematical digits, roman numeral code points, minus and
+// hyphen variants, no-break spaces). A 1-deviation mutant with one of them is one *character* away from a valid text.
+var Lookalikes = []string{"\u017f", "\u212a", "\u0131", "\u0130", "\uff11", "\uff10", "\uff21", "\uff41", "\uff2d", "\uff36", "\uff56", "\uff0e", "\uff0b", "\uff0d", "\u0661", "\u0660", "\U0001d7cf",
+	"\u2160", "\u2164", "\u2169", "\u2170", "\u216f", "\u2212", "\u2010", "\u2011", "\u00a0", "\u2007", "\u202f", "\u00e9", "\u00df", "\u01c5", "\u1e9e", "\u00b9", "\u00bd"}
+
+// MutationsTok: every substitution of one byte of base by a token and every insertion of a token (tokens may be multi-byte).
+func MutationsTok(base []byte, toks []string, fn func(m []byte)) {
+	n := len(base)
+	buf := make([]byte, 0, n+8)
+	for i := 0; i < n; i++ {
+		for _, t := range toks {
+			buf = append(buf[:0], base[:i]...)
+			buf = append(buf, t...)
+			buf = append(buf, base[i+1:]...)
+			fn(buf)
+		}
+	}
+	for i := 0; i <= n; i++ {
+		for _, t := range toks {
+			buf = append(buf[:0], base[:i]...)
+			buf = append(buf, t...)
+			buf = append(buf, base[i:]...)
+			fn(buf)
+		}
+	}
+}
+
 // AllBytes is 0..255.
 var AllBytes = func() []byte {
 	b := make([]byte, 256)
